@@ -5,13 +5,22 @@ B=$1; HERE="$(cd "$(dirname "$0")/.." && pwd)"
 python3 "$HERE/harness/gen_api.py" >/dev/null
 SRC="$HERE/harness/main.c $HERE/harness/rec.c $HERE/harness/gen/api_glue.c $(ls $HERE/harness/drv_*.c) $HERE/harness/util.h"
 STAMP=$(cat $SRC $HERE/harness/rec.h $HERE/harness/util.h $HERE/harness/drivers.def $HERE/harness/probe.c $HERE/lib/mapranges.py | sha256sum | cut -c1-16)
-if [ -f "$B/verif-hx" ] && [ "$(cat $B/verif-hx.stamp 2>/dev/null)" = "$STAMP" ]; then exit 0; fi
+# the harness lives in a directory named after the hash of its own sources, so that checks run from different /verif trees
+# (main tree, a vp-run snapshot, a staging worktree) against the same library build never exchange binaries
+OUT="$B/hx-$STAMP"
+if [ -f "$OUT/.built" ]; then touch "$OUT/.built"; echo "$OUT"; exit 0; fi
+exec 8>"$B/.hx-lock"; flock 8
+if [ -f "$OUT/.built" ]; then echo "$OUT"; exit 0; fi
+# drop harness builds that have not been used for six hours
+find "$B" -maxdepth 1 -name 'hx-*' -type d -mmin +360 -exec rm -rf {} + 2>/dev/null || true
+LIB=$B
+B="$OUT.tmp.$$"; rm -rf "$B"; mkdir -p "$B"
 CC=${HX_CC:-gcc}; FL=${HX_CFLAGS:--O1 -g}
-ls $HERE/harness/drv_*.c | xargs -P 16 -I{} sh -c "$CC $FL -w -DMPIR_VERIF -I$B -I$HERE/harness -c {} -o $B/hx_\$(basename {} .c).o"
-$CC $FL -w -DMPIR_VERIF -I$B -I$HERE/harness -c $HERE/harness/main.c -o $B/hx_main.o
-$CC $FL -w -DMPIR_VERIF -I$B -I$HERE/harness -c $HERE/harness/rec.c -o $B/hx_rec.o
-$CC $FL -w -DMPIR_VERIF -I$B -I$HERE/harness -c $HERE/harness/gen/api_glue.c -o $B/hx_api_glue.o
-$CC $FL -no-pie -Wl,-Map=$B/verif-hx.map -o $B/verif-hx $B/hx_main.o $B/hx_rec.o $B/hx_api_glue.o $(ls $HERE/harness/drv_*.c | sed "s#.*/drv_\(.*\)\.c#$B/hx_drv_\1.o#") $B/.libs/libmpir.a -lm -lpthread
+ls $HERE/harness/drv_*.c | xargs -P 16 -I{} sh -c "$CC $FL -w -DMPIR_VERIF -I$LIB -I$HERE/harness -c {} -o $B/hx_\$(basename {} .c).o"
+$CC $FL -w -DMPIR_VERIF -I$LIB -I$HERE/harness -c $HERE/harness/main.c -o $B/hx_main.o
+$CC $FL -w -DMPIR_VERIF -I$LIB -I$HERE/harness -c $HERE/harness/rec.c -o $B/hx_rec.o
+$CC $FL -w -DMPIR_VERIF -I$LIB -I$HERE/harness -c $HERE/harness/gen/api_glue.c -o $B/hx_api_glue.o
+$CC $FL -no-pie -Wl,-Map=$B/verif-hx.map -o $B/verif-hx $B/hx_main.o $B/hx_rec.o $B/hx_api_glue.o $(ls $HERE/harness/drv_*.c | sed "s#.*/drv_\(.*\)\.c#$B/hx_drv_\1.o#") $LIB/.libs/libmpir.a -lm -lpthread
 python3 $HERE/lib/mapranges.py $B/verif-hx.map $B/verif-hx > $B/verif-hx.gw
-$CC -O0 -w -no-pie -DMPIR_VERIF -I$B -o $B/verif-probe $HERE/harness/probe.c $B/.libs/libmpir.a
-echo $STAMP > $B/verif-hx.stamp
+$CC -O0 -w -no-pie -DMPIR_VERIF -I$LIB -o $B/verif-probe $HERE/harness/probe.c $LIB/.libs/libmpir.a
+touch "$B/.built"; rm -rf "$OUT"; mv "$B" "$OUT"; echo "$OUT"
